@@ -20,9 +20,9 @@ CLAIM = {
           'the claim quantifies over 2^32 words and all doubles.'),
  'note': ('Trusted: Lean kernel; model<->code correspondence on the cases of the run; CPython int/float arithmetic, '
           'math.ldexp/frexp, struct and the C compiler are modelled (assumed exact where the result is representable). '
-          'Code 50 (F8), RepCode.readBytes(70) of negative values and the negative clamp of to68 are defects of the '
-          'code: proved only in the partial form stated in Props.lean, negations proved on witnesses, registered as '
-          'known findings. VSINGL follows the repository/RP66V1 printed vector (DESIGN F9), not VAX hardware.'),
+          'Code 50 (F8) and the negative clamp of to68 are defects of the code: proved only in the partial form '
+          'stated in Props.lean, negations proved on witnesses, registered as known findings (RepCode.readBytes(70) of '
+          'negative values was a third one; it is fixed in /repo and any recurrence is an unlisted violation). VSINGL follows the repository/RP66V1 printed vector (DESIGN F9), not VAX hardware.'),
  'technique': 'Lean 4 proof (bit-field arithmetic, omega, decide) + 3-way model-implementation correspondence',
  'design_ref': 'DESIGN.md section 6 C07',
 }
@@ -42,9 +42,15 @@ TRUSTED = ['modelled, not verified: CPython int &,|,>>, int(), float arithmetic 
            '(the rebuilt binaries are compared with the model on every run)',
            'harness/gen/c07_ref.py: the independent reference written from the standards']
 
-F8 = 'F8'
-F_RB70 = 'C07-readBytes70-negative'
+F8 = 'F8-from50-exponent-mask'
 F_TO68MIN = 'C07-to68-negative-clamp'
+
+# the sources the Lean model transcribes (fingerprinted by core.check_anchors)
+ANCHOR_FILES = ['src/TotalDepth/LIS/core/pRepCode.py', 'src/TotalDepth/LIS/core/RepCode.py',
+                'src/TotalDepth/LIS/core/src/cython/cRepCode.pyx', 'src/TotalDepth/LIS/core/src/cpp/LISRepCode.cpp',
+                'src/TotalDepth/LIS/core/src/cpp/LISRepCode.h', 'src/TotalDepth/LIS/core/src/cp/cpLISRepCode.cpp',
+                'src/TotalDepth/RP66V1/core/pRepCode.py', 'src/TotalDepth/RP66V1/core/pFile.py',
+                'src/TotalDepth/BIT/ReadBIT.py']
 
 _M = {}          # modules, filled by _setup (inherited by forked workers)
 
@@ -177,8 +183,6 @@ def _lis_oracle(rc, u, path, arg, got, expected):
     finding = None
     if rc == 50 and R.in_class_F8(u) and got.startswith(('f ', 'nz')):
         finding = F8
-    elif rc == 70 and got == 'err OverflowError' and u >> 31 and (path == 'readBytes' or (path == 'c' and arg < 0)):
-        finding = F_RB70
     return (f'code {rc} word 0x{u:0{R.LIS_BITS[rc] // 4}X} via {path}({arg}): got {got}, standard gives {expected}', finding)
 
 
